@@ -25,7 +25,7 @@ func init() {
 		ID:          "C16",
 		Rule:        "cases: public keys of the five types; EC points are also constructed from a chosen x (0..3 leading zero bytes, y by modular square root) so that fixed-width encoding of short coordinates is exercised for every curve, and searched for leading-zero y. Each key: GetPublicKeyJWK -> kty/crv/width checks against own fixed-width encoding -> jwsutil.JWK.UnmarshalJSON round trip -> commitment equality with the reference; then labelled bad JWKs (leading zero dropped/added, trailing byte, one bit flipped in x or y and verified off-curve with the curve equation, curve name swapped, missing coordinate, the x|y boundary shifted by -2..+2 bytes or all bytes in one member with the total length preserved) must be rejected by UnmarshalJSON and by VerifySignature. A JWK variable that decoded a key of another type first must afterwards equal a fresh one (labels, key, re-serialization, PublicKeyBytes). distinct = (curve, leading zero bytes in x, in y, mutation).",
 		Assumptions: []string{"math/big modular arithmetic and curve parameters from crypto/elliptic and btcec", "harness base64url codec"},
-		Require:     []string{"roundtrip", "leading-zero-x", "leading-zero-y", "bad-jwk", "ed25519", "public-key-bytes", "x-at-or-above-group-order", "decoder-reuse"},
+		Require:     []string{"roundtrip", "leading-zero-x", "leading-zero-y", "bad-jwk", "ed25519", "public-key-bytes", "x-at-or-above-group-order", "decoder-reuse", "relabelled-after-use", "raw-member-name-texts"},
 		Run:         runC16,
 	})
 }
@@ -177,6 +177,12 @@ func runC16(r *fw.Runner) {
 				}
 			})
 		}
+	}
+	for b := 0; b < r.N(6, 100); b++ {
+		r.Case("used-key-relabelled", func(c *fw.Case) { c16Relabelled(c) })
+	}
+	for b := 0; b < r.N(6, 100); b++ {
+		r.Case("raw-json-member-names", func(c *fw.Case) { c16RawMembers(c) })
 	}
 	for b := 0; b < r.N(10, 300); b++ {
 		r.Case("ed25519", func(c *fw.Case) {
@@ -458,6 +464,87 @@ func c16Reuse(c *fw.Case, jb []byte, fresh *jwsutil.JWK) {
 			c.Failf("reused-decoder-reserialization", w, "re-serialization differs from a fresh variable's: %s vs %s", out, freshOut)
 		case (e2 == nil) != (err2 == nil) || !bytes.Equal(pkb, freshBytes):
 			c.Failf("reused-decoder-key-bytes", w, "PublicKeyBytes differs from a fresh variable's")
+		}
+	}
+}
+
+// c16Relabelled: a key that has just verified a signature successfully, then the same coordinates under the name of the other
+// 32-byte curve (the point is not on that curve): rejected whatever was seen before, by VerifySignature and by UnmarshalJSON.
+func c16Relabelled(c *fw.Case) {
+	r := c.Rng
+	for _, typ := range []string{gen.P256, gen.Secp256k1} {
+		for i := 0; i < 4; i++ {
+			k := gen.NewKey(r, typ)
+			msg := r.Bytes(r.Range(1, 64))
+			sig := k.Sign(r, msg)
+			genuine := toLibJWK(k.JWK())
+			c.Count("relabelled-after-use", 1)
+			c.Evals(3)
+			c.Sig("relabelled", typ)
+			if err := jwsutil.VerifySignature(genuine, sig, msg); err != nil {
+				c.Failf("genuine-key-refused", map[string]interface{}{"jwk": k.JWK(), "err": err.Error()}, "signature does not verify under its own key: %v", err)
+				continue
+			}
+			renamed := k.JWK()
+			renamed["crv"] = map[string]string{gen.P256: gen.Secp256k1, gen.Secp256k1: gen.P256}[typ]
+			if onCurve(fmt.Sprint(renamed["crv"]), k.EC.X, k.EC.Y) {
+				continue
+			}
+			w := map[string]interface{}{"genuine_jwk": k.JWK(), "relabelled_jwk": renamed}
+			if err := jwsutil.VerifySignature(toLibJWK(renamed), sig, msg); err == nil {
+				c.Failf("relabelled-key-accepted", w, "after the genuine %s key verified a signature, the same coordinates labelled %v verify it too", typ, renamed["crv"])
+			}
+			rb, _ := json.Marshal(renamed)
+			var jk jwsutil.JWK
+			if err := jk.UnmarshalJSON(rb); err == nil {
+				c.Failf("bad-jwk-accepted:curve-relabelled-after-use", w, "UnmarshalJSON accepted %s coordinates labelled %v", typ, renamed["crv"])
+			}
+			// and the genuine key still works afterwards
+			if err := jwsutil.VerifySignature(genuine, sig, msg); err != nil {
+				c.Failf("genuine-key-refused", map[string]interface{}{"jwk": k.JWK(), "err": err.Error()}, "genuine key refused after the relabelled one was tried: %v", err)
+			}
+		}
+	}
+}
+
+// c16RawMembers: JWK texts in which a member name differing from the real one by letter case only ("X", "Crv", "KTY" ...) carries
+// the good value while the real member carries a bad one (or vice versa, or a member appears twice): member names are
+// case-sensitive, so what the real members say decides.
+func c16RawMembers(c *fw.Case) {
+	r := c.Rng
+	for _, typ := range []string{gen.Secp256k1, gen.P256, gen.P384, gen.P521} {
+		k := gen.NewKey(r, typ)
+		x, y := k.XY()
+		w := len(x)
+		gx, gy := oracle.B64(x), oracle.B64(y)
+		badx := append([]byte{}, x...)
+		badx[w-1] ^= 1 // off the curve (checked below)
+		if onCurve(typ, new(big.Int).SetBytes(badx), k.EC.Y) {
+			continue
+		}
+		bx := oracle.B64(badx)
+		shortx := oracle.B64(x[:w-1])
+		otherCrv := map[string]string{gen.Secp256k1: gen.P256, gen.P256: gen.Secp256k1, gen.P384: gen.P256, gen.P521: gen.P384}[typ]
+		texts := map[string]string{
+			"bad-x-then-good-X":            fmt.Sprintf(`{"kty":"EC","crv":%q,"x":%q,"y":%q,"X":%q}`, typ, bx, gy, gx),
+			"good-X-then-bad-x":            fmt.Sprintf(`{"kty":"EC","crv":%q,"X":%q,"x":%q,"y":%q}`, typ, gx, bx, gy),
+			"short-x-then-good-X":          fmt.Sprintf(`{"kty":"EC","crv":%q,"x":%q,"y":%q,"X":%q}`, typ, shortx, gy, gx),
+			"only-upper-case-coordinates":  fmt.Sprintf(`{"kty":"EC","crv":%q,"X":%q,"Y":%q}`, typ, gx, gy),
+			"wrong-crv-then-good-Crv":      fmt.Sprintf(`{"kty":"EC","crv":%q,"x":%q,"y":%q,"Crv":%q}`, otherCrv, gx, gy, typ),
+			"only-upper-case-crv-and-kty":  fmt.Sprintf(`{"KTY":"EC","CRV":%q,"x":%q,"y":%q}`, typ, gx, gy),
+			"bad-kty-then-good-Kty":        fmt.Sprintf(`{"kty":"oct","crv":%q,"x":%q,"y":%q,"Kty":"EC"}`, typ, gx, gy),
+			"duplicate-x-bad-then-good":    fmt.Sprintf(`{"kty":"EC","crv":%q,"x":%q,"x":%q,"y":%q}`, typ, bx, gx, gy),
+			"duplicate-x-good-then-bad":    fmt.Sprintf(`{"kty":"EC","crv":%q,"x":%q,"x":%q,"y":%q}`, typ, gx, bx, gy),
+			"duplicate-crv-wrong-then-own": fmt.Sprintf(`{"kty":"EC","crv":%q,"crv":%q,"x":%q,"y":%q}`, otherCrv, typ, gx, gy),
+		}
+		for name, text := range texts {
+			c.Count("raw-member-name-texts", 1)
+			c.Evals(1)
+			c.Sig("rawmembers", typ, name)
+			var jk jwsutil.JWK
+			if err := jk.UnmarshalJSON([]byte(text)); err == nil {
+				c.Failf("bad-jwk-accepted:"+name, map[string]interface{}{"jwk_text": text, "curve": typ, "class": name}, "UnmarshalJSON accepted a %s JWK text of class %s", typ, name)
+			}
 		}
 	}
 }
